@@ -55,7 +55,12 @@ def unitBytes (us : List Nat) : List Nat := us.flatMap fun u => [u / 256, u % 25
 
 /-! ### what is written -/
 
-inductive Carrier | lit8 | hex8 | hex16
+inductive Carrier
+  | lit8    -- (old) `Object::String(text)`: literal string of the UTF-8 bytes
+  | hex8    -- (old) incremental fill: hexadecimal string of the UTF-8 bytes
+  | hex16   -- text notes: hexadecimal string of BOM + UTF-16BE
+  | txt     -- `Object::text_string(text)` written by the document writer
+  | txtHex  -- `text_string_bytes(text)` written by the incremental writer (always hexadecimal)
   deriving DecidableEq, Repr
 
 def utf8 (s : List Nat) : List Nat := s.flatMap utf8Enc
@@ -64,17 +69,30 @@ def utf8 (s : List Nat) : List Nat := s.flatMap utf8Enc
 may use for every text -/
 def bom16 (s : List Nat) : List Nat := 0xFE :: 0xFF :: unitBytes (s.flatMap utf16Enc)
 
+/-- `Object::text_string` / `text_string_bytes`: the characters PDFDocEncoding reads as ASCII and a
+literal string preserves — HT, LF, the printable range -/
+def safeAscii (c : Nat) : Bool := c == 9 || c == 10 || (0x20 ≤ c && c ≤ 0x7E)
+
+/-- the bytes `text_string` / `text_string_bytes` choose: the text itself when all characters are
+`safeAscii`, BOM + UTF-16BE otherwise -/
+def textPayload (s : List Nat) : List Nat := if s.all safeAscii then utf8 s else bom16 s
+
 /-- the bytes of the string object's value -/
 def payload : Carrier → List Nat → List Nat
   | .lit8, s => utf8 s
   | .hex8, s => utf8 s
   | .hex16, s => bom16 s
+  | .txt, s => textPayload s
+  | .txtHex, s => textPayload s
 
-/-- the string token as it stands in the file -/
+/-- the string token as it stands in the file (`Object::String` → literal, `Object::ByteString` and
+every `PdfString` of the incremental writer → hexadecimal) -/
 def token : Carrier → List Nat → List Nat
   | .lit8, s => ser (.str (utf8 s))
   | .hex8, s => incWriteString (utf8 s)
   | .hex16, s => incWriteString (bom16 s)
+  | .txt, s => if s.all safeAscii then ser (.str (utf8 s)) else ser (.hexstr (bom16 s))
+  | .txtHex, s => incWriteString (textPayload s)
 
 /-- both fill paths: `encode_strict` of the appearance text must succeed -/
 def fillAccepts (s : List Nat) : Bool := s.all fun c => (winansiEncodeChar c).isSome
@@ -118,33 +136,12 @@ def libRoundtrip (k : Carrier) (s : List Nat) : Option (List Nat) := libRead (to
 /-- what an independent (spec) reader reads from what the library wrote -/
 def specRoundtrip (k : Carrier) (s : List Nat) : Option (List Nat) := specRead (token k s) [10]
 
-/-! ### the repair: one encoder for every site (proposed `fix:`) -/
-
-/-- `escape_pdf_string_bytes` with one more arm: CR ⇒ `\r` -/
-def fixEscape : List Nat → List Nat
-  | [] => []
-  | b :: r =>
-    if b == 92 then 92 :: 92 :: fixEscape r
-    else if b == 40 then 92 :: 40 :: fixEscape r
-    else if b == 41 then 92 :: 41 :: fixEscape r
-    else if b == 13 then 92 :: 114 :: fixEscape r
-    else b :: fixEscape r
-
-/-- a character that PDFDocEncoding and the library's WinAnsi table both read as the byte of the
-same number: HT LF CR, printable ASCII, Latin-1 A1–FF except AD -/
-def single (c : Nat) : Bool :=
-  c == 9 || c == 10 || c == 13 || (0x20 ≤ c && c ≤ 0x7E) || (0xA1 ≤ c && c ≤ 0xFF && c != 0xAD)
-
 def startsBom : List Nat → Bool
   | 0xFE :: 0xFF :: _ => true
   | _ => false
 
-/-- one byte per character when every character is `single` and the text does not begin "þÿ"
-(whose bytes FE FF would be taken for a byte-order mark); BOM + UTF-16BE otherwise -/
-def fixUsesBytes (s : List Nat) : Bool := s.all single && !startsBom s
-
-/-- the token the repaired writer emits: a literal string (CR escaped) or a hexadecimal string -/
-def fixToken (s : List Nat) : List Nat :=
-  if fixUsesBytes s then 40 :: (fixEscape s ++ [41]) else incWriteString (bom16 s)
+/-- the literal string as it was written before the CR repair of `escape_pdf_string_bytes`
+(regression statements only) -/
+def tokenRawCR (s : List Nat) : List Nat := serStrRawCR (utf8 s)
 
 end OxiVerif.C10
